@@ -5,6 +5,7 @@ import Proofs.KNC07Discharge
 import Proofs.KNSorters
 import Proofs.KNC07Chain
 import Proofs.KNC07Fanin
+import Proofs.KNC07ReadTwice
 /-!
 # C07 — Estimation result is independent of memory budget, block sizes and scheduling
 
@@ -591,6 +592,100 @@ theorem lmplz_indep_final3 {Mem Sched Out : Type}
   lmplz_indep_final3_pf I render opts hN text hash unk bos eos unkCapHash xOf hx h_enc hsp hinj hnz hmax h_sortImpl sorters h_wiring h_sorters hk m₁ m₂ s₁ s₂
 
 end fanin
+
+/-! ## More of `h_wiring`: `SortAndReadTwice` and step 3 of one order over its three chains
+
+Proofs in `Proofs/KNC07ReadTwice.lean`. -/
+
+section readtwice
+open KV.Vocab KV.Chain KV.KN.ChainStages KV.KN.Blocks KV.KN.Interp
+variable {W : Type} [DecidableEq W]
+
+/-- **`SortAndReadTwice`: both readers receive the sorted stream.**  The context sort of an order (any
+correct sort `S`, C16: `extSort_sorted` + `extSort_perm` / `codeSort_sorted_perm`; what is read back from
+the spill file is what was written: C16 `spill_roundtrip`) has produced `S.ctx es'` from the records in
+any arrival order `es'` (a permutation of the order's stream `es`, distinct non-empty n-grams).  The file
+is read twice, into two chains, in two arbitrary block partitions, under two arbitrary schedules, with
+arbitrary workers behind the sources.  Once both chains have finished, the record streams at the two
+reader positions are equal to each other and to `es.mergeSort ctxLe`. -/
+theorem sort_read_twice_same {τ₁ τ₂ : Type} (T₁ : Transducers τ₁) (T₂ : Transducers τ₂) (cE : BlockCode Emit)
+    {S : Sorters} (hS : SortsOK S) {es es' : List Emit} (hperm : es'.Perm es)
+    (hnd : (es.map (·.gram)).Nodup) (hne : ∀ e ∈ es, e.gram ≠ [])
+    (blocks₁ blocks₂ : List (List Emit)) (h₁ : blocks₁.flatten = S.ctx es') (h₂ : blocks₂.flatten = S.ctx es')
+    {b₁ m₁ b₂ m₂ : Nat} {c₁ c₂ : Chain} (hb₁ : 0 < b₁) (hm₁ : 1 ≤ m₁) (hb₂ : 0 < b₂) (hm₂ : 1 ≤ m₂)
+    (hr₁ : Chain.Reach (Chain.initT b₁ m₁ (blocks₁.map cE.enc) T₁.toStageFn.tr) c₁) (hfin₁ : c₁.main = .finished)
+    (hr₂ : Chain.Reach (Chain.initT b₂ m₂ (blocks₂.map cE.enc) T₂.toStageFn.tr) c₂) (hfin₂ : c₂.main = .finished) :
+    ((valsOf (c₁.st 1).inp).map cE.dec).flatten = ((valsOf (c₂.st 1).inp).map cE.dec).flatten
+    ∧ ((valsOf (c₁.st 1).inp).map cE.dec).flatten = es.mergeSort ctxLe :=
+  sort_read_twice_same_pf T₁ T₂ cE hS hperm hnd hne blocks₁ blocks₂ h₁ h₂ hb₁ hm₁ hb₂ hm₂ hr₁ hfin₁ hr₂ hfin₂
+
+/-- **step 3 of one order ≥ 2 over its three chains.**  From the adjusted stream `es` of the order,
+arriving at the context sort in any order `es'`: the sorted file is read into the `second` chain
+(blocks `blocks₂`, `AddRight` reads at its position 1) and into the primary chain (blocks `blocksB`);
+`AddRight` is the source of the adder chain and writes its entries in any blocks `sumBlocks`;
+`MergeRight` over `PruneNGramStream` is the worker of the primary chain and takes its sums from position
+1 of the adder chain.  For every correct sort, all block partitions on the three chains, all numbers of
+chain blocks and all triples of schedules: once the chains have finished, the concatenation of what
+`MergeRight` hands on is the stage function of `Model/KN.lean` on the sorted stream.
+(Same abstraction as `mergeRight_two_chains`: blocking cross-chain reads are folded into "the stream the
+other chain delivers".) -/
+theorem step3_order_delivers {τ₂ τA : Type} (T₂ : Transducers τ₂) (TA : Transducers τA)
+    (cE : BlockCode Emit) (cG : BlockCode Gam) (cU : BlockCode Uninterp) (d : Disc)
+    {S : Sorters} (hS : SortsOK S) {es es' : List Emit} (hperm : es'.Perm es)
+    (hnd : (es.map (·.gram)).Nodup) (hne : ∀ e ∈ es, e.gram ≠ [])
+    (blocks₂ blocksB : List (List Emit)) (h₂ : blocks₂.flatten = S.ctx es') (hB : blocksB.flatten = S.ctx es')
+    {b₂ m₂ bA mA bB mB : Nat} {c₂ cA cB : Chain}
+    (hb₂ : 0 < b₂) (hm₂ : 1 ≤ m₂) (hbA : 0 < bA) (hmA : 1 ≤ mA) (hbB : 0 < bB) (hmB : 2 ≤ mB)
+    (hr₂ : Chain.Reach (Chain.initT b₂ m₂ (blocks₂.map cE.enc) T₂.toStageFn.tr) c₂) (hfin₂ : c₂.main = .finished)
+    (sumBlocks : List (List Gam))
+    (hsum : sumBlocks.flatten = addRightStream d ((valsOf (c₂.st 1).inp).map cE.dec))
+    (hrA : Chain.Reach (Chain.initT bA mA (sumBlocks.map cG.enc) TA.toStageFn.tr) cA) (hfinA : cA.main = .finished)
+    (hrB : Chain.Reach (Chain.initT bB mB (blocksB.map cE.enc)
+      (liftStage cE cU (mrBlock d) ⟨((valsOf (cA.st 1).inp).map cG.dec).flatten, none⟩).toStageFn.tr) cB)
+    (hfinB : cB.main = .finished) :
+    ((valsOf (cB.st 1).out).map cU.dec).flatten =
+      ((ctxRuns (es.mergeSort ctxLe)).flatMap (mergeRight d)).filter (·.keep) :=
+  step3_order_delivers_pf T₂ TA cE cG cU d hS hperm hnd hne blocks₂ blocksB h₂ hB hb₂ hm₂ hbA hmA hbB hmB hr₂ hfin₂ sumBlocks hsum hrA hfinA hrB hfinB
+
+/-- both for all codings, sorts, partitions, chain geometries and schedules (`Step3Delivers`) -/
+theorem step3_delivers : Step3Delivers := step3_delivers_pf
+
+/-- **C07, last form.**  As `lmplz_indep_final3`, the premise of `h_wiring` now also contains
+`Step3Delivers` (`SortAndReadTwice`'s two readers receive the same sorted stream; step 3 of an order
+≥ 2 over its second / adder / primary chains computes `initialOrderWith`'s stream before the suffix
+sort).  All four premises are theorems, so `h_wiring` is still logically as strong as `h_stages`; what
+REMAINS to be shown inside it:
+* `AdjustCounts::Run`'s fan-out: one loop over the sorted order-`N` chain writing the `N` chains of all
+  orders (`adjustStream` / `collapse`);
+* `Interpolate` / `JointOrder`: lock-step fan-in over the `N` suffix-sorted chains plus the `N−1` gamma
+  files written by `OnlyGamma`;
+* step 3 of order 1 over its three chains (the single-chain part is `mergeRightUnigram_partition`);
+* that the external sorts are correct sorts is `h_sorters` (C16); `--renumber` (not in the model); the
+  printer and all float arithmetic (`render`). -/
+theorem lmplz_indep_final4 {Mem Sched Out : Type}
+    (I : Impl Mem Sched (List (List W)) Out) (render : Except Err Model → Out) (opts : Opts)
+    (hN : 1 ≤ opts.cfg.order) (text : List (List W))
+    (hash : W → Nat) (unk bos eos : W) (unkCapHash : Nat) (xOf : Mem → Nat)
+    (hx : ∀ m, 1 ≤ xOf m ∧ xOf m ≤ 2^63)
+    (h_enc : ∀ m t, I.encode m t = growableIds hash unk bos eos unkCapHash (xOf m) t)
+    (hsp : unk ≠ bos ∧ unk ≠ eos ∧ bos ≠ eos)
+    (hinj : InjOn hash ([unk, bos, eos] ++ text.flatten))
+    (hnz : ∀ w, w ∈ [unk, bos, eos] ++ text.flatten → hash w ≠ 0)
+    (hmax : (specEncode unk bos eos text).2 < kWordIndexMax)
+    (h_sortImpl : ∀ m s blocks, ∃ pick plan,
+      KV.Sort.extSort KV.Sort.suffixLt KV.Sort.combineCounts pick (toBlocks blocks) plan =
+        some ((I.sortCombine m s blocks).map toRec))
+    (sorters : Mem → Sched → Nat → Sorters)
+    (h_wiring : SingleChainsDeliver → FaninDelivers → BarrierIndep → Step3Delivers →
+      ∀ m s full, I.post m s opts full =
+        render (estimateFromWith (sorters m s) opts.cfg opts.pruneVocab opts.fallback full))
+    (h_sorters : ∀ m s n, SortsOK (sorters m s n))
+    (hk : opts.cfg.keepSpecials = true)
+    (m₁ m₂ : Mem) (s₁ s₂ : Sched) :
+    lmplzOut I m₁ s₁ opts text = lmplzOut I m₂ s₂ opts text :=
+  lmplz_indep_final4_pf I render opts hN text hash unk bos eos unkCapHash xOf hx h_enc hsp hinj hnz hmax h_sortImpl sorters h_wiring h_sorters hk m₁ m₂ s₁ s₂
+
+end readtwice
 
 /-! ## chain block boundaries inside the pipeline: the two compacting iterators -/
 
